@@ -67,6 +67,11 @@ CHECKS = {
             "Generated-input search with an analytic end-to-end oracle for CLs / p0 (observed and 5-point band) and exhaustive enumeration of the 16 flag combinations in every asymptotic case.",
             "Trusted: vlib/refstats.py; fits are run at tight optimiser tolerance (SLSQP ftol 1e-10, MIGRAD tol 1e-4) so that the envelope (delta 1e-4 / 1e-3 on 2NLL) detects wiring errors rather than optimiser noise; toy-based calls are checked for layout only.",
             "DESIGN.md#c08"),
+    "C09": ("exploration",
+            "Hypothesis-generated closed-form counting families x data x level in (0.001, 0.5) x {toms748 scan, generated linear grids} x forwarded options; oracles: the check's own hypotest calls bracket the passed level at limit*(1-+eps) for all six curves, closed-form root of the CLs curve, crossing-cell membership and linear interpolation for grids, ordering, stored results == fresh hypotest",
+            "Generated-input search in which the level is a generated quantity (never the default alone), with an independent root of the analytic CLs curve as oracle.",
+            "Trusted: vlib/refstats.py; tight optimiser tolerance; only curves crossing the level inside the scanned range are checked; the NaN-at-mu=0 failure of the automatic scan is a recorded known finding.",
+            "DESIGN.md#c09"),
 }
 
 NOT_YET = "check not built yet in this session (work in progress; the design in DESIGN.md section 5 applies)"
